@@ -133,7 +133,7 @@ struct PerType {
     }
     static void run_domains(const std::vector<S>& K, const std::vector<S>& L, std::integral_constant<unsigned, 16>) {
         unary(erase<S>(DomFull1<S>()), K);
-        if (opt().thorough) binary(erase<S>(DomFull2<S>()), K); else binary(erase<S>(DomCross2<S>(L, "D16 x L16 union L16 x D16")), K);
+        if (exh16()) binary(erase<S>(DomFull2<S>()), K); else binary(erase<S>(DomCross2<S>(L, "D16 x L16 union L16 x D16")), K);
         ternary(erase<S>(DomProd3<S>(L, L, L, "L16^3")), K);
         rot(L, K);
     }
